@@ -29,8 +29,24 @@ theorem readTo_all (stop : Nat → Bool) : ∀ (b : Bytes), (∀ c ∈ b, stop c
     have := ih (fun d hd => h d (List.mem_cons_of_mem _ hd))
     simp [readTo, hc, this]
 
-/-- bytes allowed inside a string literal of the grammar -/
-def strChar (c : Nat) : Bool := decide (32 ≤ c) && c != 34
+def isLead (s : Nat) : Bool := numberLeads.contains s || lineNumberLeads.contains s
+
+theorem not_lead_of_ge {s : Nat} (h : 32 ≤ s) : isLead s = false := by
+  simp only [isLead, numberLeads, lineNumberLeads, List.contains_eq_mem, List.mem_cons, List.not_mem_nil, or_false,
+    Bool.or_eq_false_iff, decide_eq_false_iff_not]
+  omega
+
+theorem lead_facts {c : Nat} (h : isLead c = false) : c ≠ 13 := by
+  intro e; subst e; simp [isLead, numberLeads, lineNumberLeads] at h
+
+/-- bytes allowed inside a string literal of the grammar: everything except NUL, the quote and the
+    number-token lead bytes 0B..0F, 11..1D, 1F (which the lister prints as numbers even inside a literal;
+    CR = 0D is one of them) -/
+def strChar (c : Nat) : Bool := c != 0 && c != 34 && !isLead c
+
+theorem strChar_facts {c : Nat} (h : strChar c = true) : c ≠ 0 ∧ c ≠ 34 ∧ c ≠ 13 ∧ isLead c = false := by
+  simp only [strChar, Bool.and_eq_true, bne_iff_ne, Bool.not_eq_true'] at h
+  exact ⟨h.1.1, h.1.2, lead_facts h.2, h.2⟩
 
 theorem tokLoop_nil (old : Bool) (t : Table) (cd : Codec) (f : Nat) (s : St) : tokLoop old t cd f s [] = .ok [] := by
   cases f <;> simp [tokLoop]
@@ -45,14 +61,52 @@ theorem tok_str (old : Bool) (t : Table) (cd : Codec) (f : Nat) (s : St) (b R : 
   have hr : readTo (fun c => c == 34 || plainEnd c) (b ++ 34 :: R) = (b, 34 :: R) := by
     apply readTo_append
     · intro c hc
-      have := hb c hc
-      simp only [strChar, Bool.and_eq_true, decide_eq_true_eq, bne_iff_ne] at this
+      have := strChar_facts (hb c hc)
       simp only [plainEnd, Bool.or_eq_false_iff, beq_eq_false_iff_ne]
-      omega
+      exact ⟨this.2.1, this.1, this.2.2.1⟩
     · simp
   have hs : readString (34 :: (b ++ 34 :: R)) = (34 :: b ++ [34], R) := by
     simp [readString, hr]
   simp [tokLoop, isBlank, hs]
+
+/-- a string literal that the end of the line leaves open -/
+theorem tok_str_open (old : Bool) (t : Table) (cd : Codec) (f : Nat) (s : St) (b : Bytes)
+    (hb : ∀ c ∈ b, strChar c = true) :
+    tokLoop old t cd (f + 1) s (34 :: b) = .ok (34 :: b) := by
+  have hr : readTo (fun c => c == 34 || plainEnd c) b = (b, []) := by
+    apply readTo_all
+    intro c hc
+    have := strChar_facts (hb c hc)
+    simp only [plainEnd, Bool.or_eq_false_iff, beq_eq_false_iff_ne]
+    exact ⟨this.2.1, this.1, this.2.2.1⟩
+  have hs : readString (34 :: b) = (34 :: b, []) := by
+    simp [readString, hr]
+  simp [tokLoop, isBlank, hs, tokLoop_nil, prepend]
+
+theorem tok_tab (old : Bool) (t : Table) (cd : Codec) (f : Nat) (s : St) (R : Bytes) :
+    tokLoop old t cd (f + 1) s (9 :: R) = prepend [9] (tokLoop old t cd f s R) := by
+  simp [tokLoop, isBlank]
+
+/-- a digit or point where numbers are not allowed (behind a name, as in OPTION BASE 1) stays a character -/
+theorem tok_raw (old : Bool) (t : Table) (cd : Codec) (f : Nat) (s : St) (c : Nat) (R : Bytes)
+    (hc : isDigit c = true ∨ c = 46) (han : s.an = false) :
+    tokLoop old t cd (f + 1) s (c :: R) = prepend [c] (tokLoop old t cd f { s with aj := false, an := false } R) := by
+  rw [tokLoop]
+  rcases hc with hc | rfl
+  · obtain ⟨_, g2, _, _, _, _, g7, g8, g9, g10, g11⟩ := isDigit_facts hc
+    have hr : 48 ≤ c ∧ c ≤ 57 := by simpa [isDigit] using hc
+    have ho : c ∉ asciiOperators := by simp [asciiOperators]; omega
+    have hl : isLetter c = false := by
+      simp only [isLetter, isUpper, isLower, Bool.or_eq_false_iff, decide_eq_false_iff_not]; omega
+    have h39 : c ≠ 39 := by omega
+    have h63 : c ≠ 63 := by omega
+    have hp : punctOut c = c := by simp [punctOut]; omega
+    have hs : punctSt s c = { s with aj := false, an := false } := by
+      unfold punctSt
+      simp [show c ≠ 44 by omega, show c ≠ 35 by omega, show c ≠ 59 by omega, show c ≠ 40 by omega,
+        show c ≠ 91 by omega, show c ≠ 41 by omega]
+    simp [g7, g8, g9, g10, g11, han, ho, hl, h39, h63, hp, hs]
+  · simp [isBlank, isDigit, han, asciiOperators, isLetter, isUpper, isLower, punctOut, punctSt]
 
 /-- separator characters of the grammar that take the final `else` branch of the loop -/
 def punctList : List Nat := [44, 35, 59, 40, 91, 41, 58, 36, 37, 33, 93, 64, 95, 123, 125, 126, 124, 96]
@@ -134,13 +188,6 @@ theorem tok_jump (old : Bool) (t : Table) (cd : Codec) (f : Nat) (s : St) (n : N
 
 /-! ## the lister, item by item -/
 
-def isLead (s : Nat) : Bool := numberLeads.contains s || lineNumberLeads.contains s
-
-theorem not_lead_of_ge {s : Nat} (h : 32 ≤ s) : isLead s = false := by
-  simp only [isLead, numberLeads, lineNumberLeads, List.contains_eq_mem, List.mem_cons, List.not_mem_nil, or_false,
-    Bool.or_eq_false_iff, decide_eq_false_iff_not]
-  omega
-
 theorem lst_char (old : Bool) (t : Table) (cd : Codec) (f : Nat) (lit com : Bool) (out : Bytes) (s : Nat) (R : Bytes)
     (h0 : s ≠ 0) (h34 : s ≠ 34) (hl : isLead s = false) (hp : com = true ∨ lit = true ∨ (32 ≤ s ∧ s ≤ 126)) :
     listLoop old t cd (f + 1) lit com out (s :: R) = listLoop old t cd f lit com (out ++ [s]) R := by
@@ -175,10 +222,9 @@ theorem lst_lit (old : Bool) (t : Table) (cd : Codec) (com : Bool) (R : Bytes) :
   | nil => intro f out _; simp
   | cons c b ih =>
     intro f out h
-    have hc := h c (List.mem_cons_self ..)
-    simp only [strChar, Bool.and_eq_true, decide_eq_true_eq, bne_iff_ne] at hc
+    have hc := strChar_facts (h c (List.mem_cons_self ..))
     have e : f + (c :: b).length = (f + b.length) + 1 := by simp; omega
-    rw [e, List.cons_append, lst_char old t cd _ true com out c _ (by omega) hc.2 (not_lead_of_ge hc.1)
+    rw [e, List.cons_append, lst_char old t cd _ true com out c _ hc.1 hc.2.1 hc.2.2.2
       (Or.inr (Or.inl rfl)), ih f _ (fun d hd => h d (List.mem_cons_of_mem _ hd))]
     simp
 
@@ -194,6 +240,24 @@ theorem lst_str (old : Bool) (t : Table) (cd : Codec) (f : Nat) (out b R : Bytes
   simp only [Bool.not_false]
   rw [lst_lit old t cd false (34 :: R) b (f + 1) _ hb, lst_quote]
   simp
+
+theorem listLoop_nil' (old : Bool) (t : Table) (cd : Codec) (f : Nat) (lit com : Bool) (out : Bytes) :
+    listLoop old t cd f lit com out [] = .ok out := by
+  cases f <;> simp [listLoop]
+
+theorem lst_str_open (old : Bool) (t : Table) (cd : Codec) (f : Nat) (out b : Bytes) (hb : ∀ c ∈ b, strChar c = true) :
+    listLoop old t cd (f + (b.length + 1)) false false out (34 :: b) = .ok (out ++ 34 :: b) := by
+  have e : f + (b.length + 1) = (f + b.length) + 1 := by omega
+  rw [e, lst_quote]
+  simp only [Bool.not_false]
+  have := lst_lit old t cd false [] b f (out ++ [34]) hb
+  simp only [List.append_nil] at this
+  rw [this, listLoop_nil']
+  simp
+
+theorem lst_tab (old : Bool) (t : Table) (cd : Codec) (f : Nat) (out R : Bytes) :
+    listLoop old t cd (f + 1) false false out (9 :: R) = listLoop old t cd f false false (out ++ [9]) R := by
+  rw [listLoop]; simp [numberLeads, lineNumberLeads]
 
 /-- a comment body: runs to the end of the line -/
 def remChar (c : Nat) : Bool := c != 0 && !isLead c
